@@ -1,4 +1,4 @@
-(* Dataset/PathPrelude.v — prelude of translators/paths2coq.py: the fragment of Python used by the small pure
+(* Dataset/PathPrelude.v — prelude of translators/partnames2coq.py: the fragment of Python used by the small pure
    path functions of fastparquet (writer.find_max_part, the part-name format of writer.write_multi, util.join_path,
    util.path_string, the regular expression api.PART_ID) with the meaning the translator gives it.
    Text is `bytes` (ASCII / UTF-8 code units), integers are N (part numbers are never negative).             *)
